@@ -128,7 +128,7 @@ fn const_lang_only(p: &Plant, lang: LangId) -> bool {
 pub fn run(ctx: &Ctx) -> (Spec, Report) {
     let seed = ctx.seed;
     let mut rng = Rng::derive(seed, "C08-plants", 0);
-    let all = plants(&mut rng, ctx.tier.pick(1, 4));
+    let all = plants(&mut rng, ctx.tier.pick(2, 6));
     let all_ref = &all;
     // ---- library: the full product x 6 languages ------------------------------------------------
     let shards = 64;
@@ -178,7 +178,7 @@ pub fn run(ctx: &Ctx) -> (Spec, Report) {
     rep.count("plants", all.len() as u64);
 
     // ---- the real binary under strace -----------------------------------------------------------
-    let n_cli = ctx.tier.pick(360, 4000).min(all.len() * 6);
+    let n_cli = ctx.tier.pick(900, 6000).min(all.len() * 6);
     let cli = ctx.cli.clone();
     let scratch = ctx.scratch("strace");
     let r2 = par_shards(ctx.threads, n_cli, |i| {
